@@ -17,6 +17,9 @@ type PlanSrv struct {
 	Faults  FaultSpec `json:"faults"`  // client->server direction of every link
 	Back    FaultSpec `json:"back"`
 	LingerS int       `json:"linger_s"` // how long the client keeps reading after its script
+	// Chatter: a client whose handshake was refused does not leave: it keeps sending well-formed
+	// session envelopes (retrying its credentials) every 300 ms while it waits to be disconnected
+	Chatter bool `json:"chatter,omitempty"`
 }
 
 func genPlanSrv(t *simrt.Tape, tier string) interface{} {
@@ -62,6 +65,10 @@ func genPlanSrv(t *simrt.Tape, tier string) interface{} {
 			st := Step{Op: "auto", Choice: 1, From: from, Creds: cr}
 			p.Scripts = append(p.Scripts, []Step{{Op: "auto"}, st, st, st})
 		}
+	}
+	if p.Conf.Full && t.Draw(10) == 0 {
+		// the server is closed from inside a callback of a pending handshake, which then goes on
+		p.Conf.CloseIn = []string{"auth", "reg"}[t.Draw(2)]
 	}
 	p.Conf.WarmUp = p.Conf.Full && p.Conf.Transport != "inproc" && t.Draw(3) == 0
 	p.Conf.OtherBuilder = p.Conf.Full && t.Draw(3) == 0
@@ -185,6 +192,15 @@ func runSrvScenario(w *World, p *PlanSrv, monitor func(s *SUT)) (*History, *SUT,
 		go func() {
 			defer done[i].Set()
 			ScriptRun(w, peer, p.Scripts[i])
+			if lf := peer.LastSessionFrame(); p.Chatter && fstr(lf, "state") == "failed" && peer.Kind != "inproc" {
+				retry := []byte(`{"state":"authenticating","id":"` + fstr(lf, "id") + `","from":"alice@cli.org/home","scheme":"plain","authentication":{"password":"bm9wZQ=="}}` + "\n")
+				for k := 0; k < p.LingerS*3 && !peer.RemoteClosed().IsSet(); k++ {
+					if peer.SendBytes(retry, "chatter") != nil {
+						break
+					}
+					time.Sleep(300 * time.Millisecond)
+				}
+			}
 			// keep reading for a while: the server may still answer or close
 			peer.RemoteClosed().WaitFor(time.Duration(p.LingerS) * time.Second)
 		}()
@@ -484,6 +500,7 @@ func init() {
 		Rule: "plans = (server configuration from the lattice transport{tcp,ws,inproc} x TLS capability x compression list x encryption list x 1-3 offered schemes x bare ServerChannel or full ServerBuilder server x buffer size; " +
 			"authentication callback outcomes per call {member, unknown, round trip, error, authority, empty role}; registration outcome {derived node, error, other node}; 1-3 scripted raw clients, each a word of <= 8 steps over " +
 			"{protocol-correct next envelope with option/scheme/credential variants, explicit session envelope in any of 7 states with id/scheme/credential/option variants, data envelope, garbage bytes, half frame, ignore-TLS, close, reset, wait}; optional link faults); " +
+			"in-process clients with a queue of 4, 1 or 0 envelopes, optionally deaf (they speak and leave without ever reading); the scheme an establishment rests on must be among those the server announced to that peer, not merely configured; " +
 			"non-trivial = at least one scripted client connected; distinct = distinct (plan JSON, event-log hash)",
 	})
 }
